@@ -255,7 +255,11 @@ class CallMixin(StmtMixin):
             return
         allowed = (c is not None and (c.inline or c.inline_at_calls)) or fi.key in self.inline_ok or fi.key in self.reg.inline or self.inline_all
         if not allowed:
-            raise Unsupported(f"call to {fi.key}, which has no contract (and is not marked inline)", node)
+            # a function the contracts do not know (e.g. a helper a change has just introduced): its real body is executed
+            # in place when it is small and not a generator - exact, and listed in the evidence as inlined
+            body = [b for b in fi.node.body if not (isinstance(b, ast.Expr) and isinstance(b.value, ast.Constant))]
+            if fi.is_generator or len(body) > 25 or self.call_depth > 4:
+                raise Unsupported(f"call to {fi.key}, which has no contract (and is not marked inline)", node)
         yield from self.inline_call(st, fi, args, kwargs, node)
 
     verifying_body_of = ""
@@ -560,6 +564,14 @@ class CallMixin(StmtMixin):
             st, v, inv = self.make(st, sort, f"{last}'")
             return st.heap_set(cur, last, v).assume(*inv)
         old = o.get(last)
+        if old is None:
+            # a field currently holding None: what it may hold afterwards is given by the declared shape of its class
+            for k_ in (o.cls.mro() if isinstance(o.cls, ClassInfo) else []):
+                shp = self.reg.shapes.get(getattr(k_, "key", None))
+                fs = shp and (shp.fields.get(last) or shp.ghost.get(last))
+                if fs:
+                    st, v, inv = self.make(st, fs, f"{last}'")
+                    return st.heap_set(cur, last, v).assume(*inv)
         st, v = self.fresh_like(st, old, f"{last}'")
         if v is not old:
             st = st.heap_set(cur, last, v)
